@@ -33,9 +33,9 @@ def series_ok(series):
 def head_mapping_ok(hm, n):
     """Every level holds at least one crossing; the series ids at a level are increasing (hence distinct) positions
     below n."""
-    return forall_int(lambda h: implies(h in hm, len(hm[h]) >= 1
-                                        and forall(0, len(hm[h]), lambda q: 0 <= hm[h][q][0] and hm[h][q][0] < n
-                                                   and forall(0, q, lambda p: hm[h][p][0] < hm[h][q][0]))))
+    return forall_int(lambda h: not (h in hm) or (len(hm[h]) >= 1
+                                                  and forall(0, len(hm[h]), lambda q: 0 <= hm[h][q][0] and hm[h][q][0] < n
+                                                             and forall(0, q, lambda p: hm[h][p][0] < hm[h][q][0]))))
 
 
 @contract("spowtd.fit_offsets:build_head_mapping",
@@ -236,3 +236,40 @@ def _find_offsets(head_mapping, result):
     ensures(forall(0, len(g_A), lambda r: row_b(g_items, g_means, g_b, g_rj, g_rp, r)))
     # the offsets: what numpy.linalg.solve returned for the normal equations of exactly this (A, b), then 0
     ensures(forall(0, len(result[0]) - 1, lambda c: result[1][c] == lstsq_solution(g_A, g_b)[c]))
+
+
+# --------------------------------------------------------------------------- native inputs (run-time contract check, cross-check)
+
+def _small_series(tier):
+    """Collections of 1 .. 3 (quick) / 4 series, each a monotone or non-monotone short (t, H) record on a quarter-step
+    lattice, overlapping in level or not."""
+    import itertools
+    import numpy as np
+    shapes = [
+        ([0.0, 10.0], [0.25, 2.5]), ([0.0, 5.0, 20.0], [3.5, 1.25, 0.5]), ([3.0, 4.0], [1.75, 1.8]),
+        ([0.0, 10.0, 20.0, 30.0], [0.5, 2.25, 1.0, 3.75]), ([1.0, 2.0], [5.25, 7.5]), ([0.0, 1.0, 2.0], [2.0, 3.0, 4.0]),
+    ]
+    for n in range(1, 4 if tier == "quick" else 5):
+        for combo in itertools.combinations(range(len(shapes)), n):
+            yield [(np.array(shapes[i][0]), np.array(shapes[i][1])) for i in combo]
+
+
+@examples("spowtd.fit_offsets:build_head_mapping")
+def _ex_build_head_mapping(tier, rng):
+    for series in _small_series(tier):
+        for step in (1.0, 0.5):
+            yield {"series": series, "head_step": step}
+
+
+@examples("spowtd.fit_offsets:get_series_time_offsets")
+def _ex_get_series_time_offsets(tier, rng):
+    for series in _small_series(tier):
+        for step in (1.0, 0.5):
+            yield {"series_list": series, "head_step": step}
+
+
+@examples("spowtd.fit_offsets:split_mapping_by_keys")
+def _ex_split_mapping(tier, rng):
+    m = {1: [(0, 0.5)], 2: [(0, 1.0), (1, 2.5)], 5: [(1, 3.0), (2, 0.25)], 7: [(2, 9.0)]}
+    for keys in ([], [[1, 2]], [[2, 5], [7]], [[9], [1, 5, 7], [2]], [[1], [1]]):
+        yield {"mapping": dict(m), "key_lists": [list(k) for k in keys]}
